@@ -123,7 +123,36 @@ def gen_script(rng):
     return script
 
 
+def gen_subgen(rng):
+    """a body that iterates a second GeneratorObject iterator whose body yields to the outer consumer from
+    that depth (`Y`), hands items to the loop (`Y2`) and really suspends"""
+    inner = []
+    for _ in range(rng.randint(2, 6)):
+        r = rng.random()
+        if r < 0.40:
+            inner.append(("Y", rng.randint(10, 99)))
+        elif r < 0.65:
+            inner.append(("Y2", rng.randint(10, 99)))
+        elif r < 0.80:
+            inner.append(("S", rng.randint(100, 199)))
+        else:
+            inner.append(("L", rng.randint(1, 6)))
+    if not any(t[0] == "Y" for t in inner):
+        inner.insert(rng.randint(0, len(inner)), ("Y", rng.randint(10, 99)))
+    return ("SUBGEN", inner)
+
+
 def gen_case(rng):
+    if rng.random() < 0.06:
+        pre = [("L", 1)] + ([("Y", rng.randint(10, 99))] if rng.random() < 0.5 else [])
+        sg = gen_subgen(rng)
+        body = [sg] if rng.random() < 0.6 else [("TRY", [sg], [(rng.choice(["E1", "E2", "EXC"]), [("L", 2)])], [("L", 3)])]
+        post = [("Y", rng.randint(10, 99))] if rng.random() < 0.5 else []
+        script = [("call", ("as", 0 if rng.random() < 0.5 else rng.choice(VALS))) if rng.random() < 0.8 else
+                  rng.choice([("send", rng.choice(VALS)), ("call", ("at", rng.choice(["E1", "E2"]))), ("call", ("ac",))])
+                  for _ in range(rng.randint(3, 9))]
+        script[0] = ("call", ("as", 0))
+        return {"prog": pre + body + post, "script": script, "second": False, "anext": rng.random() < 0.5}
     deep = rng.random() < 0.25
     prog = gen_block(rng, 0, [rng.randint(4, 14)], deep=deep)
     return {"prog": prog, "script": gen_script(rng), "second": rng.random() < 0.35,
@@ -170,7 +199,7 @@ class Side:
             self.frame = lambda: ("done" if self.gen.ag_frame is None else
                                   "new" if inspect.getasyncgenstate(self.gen) == "AGEN_CREATED" else "susp")
         else:
-            fn = mp.compile_body(prog, "goi", {})
+            fn = mp.compile_body(prog, "goi", {"GeneratorObject": asynkit.GeneratorObject})
             g = asynkit.GeneratorObject()
             self.coro = fn(g, self.log, tok)
             self.gen = g(self.coro)
@@ -458,6 +487,8 @@ def judge(case):
         tags.add("GeneratorExit-handler-ran")
     if mp.has_yield([s for s in case["prog"] if s[0] == "CALL"]) or _deep_yield(case["prog"]):
         tags.add("ayield-from-nested-call")
+    if mp.has_subgen(case["prog"]):
+        tags.add("ayield-to-outer-generator-from-inner-generator")
     # Task driving (only meaningful when no second consumer was issued while one was suspended)
     second = any(o.startswith("pend") and i + 1 < len(lines) and lines[i + 1].startswith("call")
                  for i, o in enumerate(nouts))
@@ -519,6 +550,8 @@ def normalise(case):
                     [stmt(x) for x in s[3]])
         if k == "CALL":
             return ("CALL", [stmt(x) for x in s[1]])
+        if k == "SUBGEN":
+            return ("SUBGEN", [tuple(x) for x in s[1]])
         return tuple(s)
 
     def act(a):
@@ -559,6 +592,7 @@ def explore(ctx, cases, label=""):
             if gc_was:
                 gc.enable()
         side_keep.clear()
+        mp.KEEP.clear()
         ctx.case(json.dumps(case, sort_keys=True), sorted(j["tags"]))
         bad = j["bad"]
         if bad is not None:
